@@ -412,3 +412,87 @@ Proof.
   exact (sim_same_net d d' mu rho MR ar_top ar_desc ar_ports ar_sigs ar_inst ar_single ar_inj ar_loc ar_val (wfs_step_total d Hwfs) x y).
 Qed.
 End ArraysPass.
+
+(* ------------------------------------------------------------------------------------------ wfs is kept *)
+Lemma inst_ok_keep d d' k m m' x : (forall t ps, target_ports d t = Ok ps -> target_ports d' t = Ok ps) ->
+  m_leaves m' = m_leaves m -> m_ports m' = m_ports m -> m_sigs m' = m_sigs m -> inst_ok d k m x -> inst_ok d' k m' x.
+Proof.
+  intros Htp Hl Hp Hs [Ho [ports [Hpt [Hnd [Hc Hall]]]]]. split; [exact Ho|]. exists ports. split; [apply Htp; exact Hpt|]. split; [exact Hnd|].
+  split; [|exact Hall]. eapply Forall_impl; [|exact Hc]. intros c [w [cw [H1 [H2 [H3 H4]]]]]. exists w, cw. split; [exact H1|]. split; [exact H2|].
+  split; [|exact H4]. eapply Forall_impl; [|exact H3]. intros lw. apply leaf_ok_keep; assumption.
+Qed.
+
+Theorem arrays_wfs d d' : wfs d -> arrays_design d = Ok d' -> wfs d' /\ no_arrays d'.
+Proof.
+  intros Hwfs Hpass. pose proof Hwfs as [Htop [Hnd Hmods]].
+  assert (forall k m', nth_error (d_mods d') k = Some m' -> exists m, nth_error (d_mods d) k = Some m /\ arrays_module d m = Ok m') as Hback.
+  { intros k m' Hk. apply (map_modules_nth_rev _ _ _ _ _ Hpass Hk). }
+  assert (forall t ps, target_ports d t = Ok ps -> target_ports d' t = Ok ps) as Htp.
+  { intros t ps. apply (target_ports_keep _ _ _ t Hpass (arrays_ports_keep d)). }
+  split.
+  - split; [|split].
+    + rewrite (map_modules_length _ _ _ Hpass). rewrite (proj1 (map_modules_inv _ _ _ Hpass)). exact Htop.
+    + rewrite (map_modules_names _ _ _ Hpass); [exact Hnd|]. intros m m' H. destruct (arrays_module_inv _ _ _ H) as [_ [_ [_ [_ [H1 _]]]]]. exact H1.
+    + intros k m' Hk. destruct (Hback k m' Hk) as [m [Hkm Hm]]. pose proof (Hmods k m Hkm) as Hok. destruct Hok as [Hn [Hnd' [Hw Hi]]].
+      destruct (arrays_module_inv _ _ _ Hm) as [tbl [new [Ht [Hnw [En [Ep [Es [El Ei]]]]]]]].
+      split; [rewrite En; exact Hn|]. split; [apply (am_NoDup' d k m m' tbl new (Hmods k m Hkm) Ht Hnw Ei Ep Es)|].
+      split; [rewrite Ep, Es; exact Hw|].
+      apply Forall_forall. intros el Hel.
+      destruct (am_back d m m' tbl new Hnw Ei el Hel) as [[Hin Hs]|[x [nm [ps [e [Hx [Hsx [He [Hps Hei]]]]]]]]].
+      * rewrite Forall_forall in Hi. apply (inst_ok_keep d d' k m m' el Htp El Ep Es). apply Hi. exact Hin.
+      * rewrite Forall_forall in Hi. destruct (Hi x Hx) as [Ho [ports [Hpt [Hcnd [Hc Hall]]]]].
+        assert (ports = ps) as -> by congruence.
+        destruct (elem_inst_inv _ _ _ _ _ Hei) as [_ [Hn0 [Hof Fc]]]. cbn [fst] in Fc.
+        split; [rewrite Hof; exact Ho|]. exists ps. split; [rewrite Hof; apply Htp; exact Hps|]. split.
+        { rewrite <- (Forall2_map_eq _ fst fst _ _ Fc); [exact Hcnd|]. intros a b [Hab _]. symmetry. exact Hab. }
+        split.
+        { apply Forall_forall. intros c' Hc'. destruct (Forall2_In_r _ _ _ c' Fc Hc') as [c [Hcin [Hfst [w0 [Hw0 Hac]]]]].
+          rewrite Forall_forall in Hc. destruct (Hc c Hcin) as [w [cw [Hpw [Hw1 [Hl [Hcw Hcase]]]]]].
+          assert (w0 = w) as -> by congruence.
+          destruct (xwidth_ok_xbits _ _ Hcw) as [bits [Hb Hlen]].
+          pose proof (array_element_bits (i_n x) w (snd c) e bits Hw1 He Hb) as AE. rewrite Hac in AE. destruct AE as [l' [Hb' [Hlen' _]]].
+          exists w, w. split; [rewrite Hfst; exact Hpw|]. split; [exact Hw1|]. split.
+          - rewrite (array_elem_conn_leaves _ _ _ _ _ Hac). eapply Forall_impl; [|exact Hl]. intros lw. apply leaf_ok_keep; assumption.
+          - split; [|left; reflexivity]. pose proof (xwidth_xbits (snd c')) as W. rewrite Hb' in W. rewrite W, Hlen'. reflexivity. }
+        intros pw Hpwin E. apply (Hall pw Hpwin).
+        apply (assoc_Forall2_none _ _ _ (fst pw) Fc); [|exact E]. intros a b [Hab _]. symmetry. exact Hab.
+  - intros k m' Hk. destruct (Hback k m' Hk) as [m [Hkm Hm]].
+    destruct (arrays_module_inv _ _ _ Hm) as [tbl [new [Ht [Hnw [En [Ep [Es [El Ei]]]]]]]].
+    apply forallb_forall. intros el Hel.
+    destruct (am_back d m m' tbl new Hnw Ei el Hel) as [[Hin Hs]|[x [nm [ps [e [Hx [Hsx [He [Hps Hei]]]]]]]]]; [exact Hs|].
+    destruct (elem_inst_inv _ _ _ _ _ Hei) as [_ [Hn0 _]]. unfold single. rewrite Hn0. reflexivity.
+Qed.
+
+(* ------------------------------------------------------------------------------------------ the only failure is the name length limit *)
+Lemma traverse_ok_or {A B} (f : A -> result B) (e0 : err) l :
+  (forall x, In x l -> (exists y, f x = Ok y) \/ f x = Error e0) -> (exists r, traverse f l = Ok r) \/ traverse f l = Error e0.
+Proof.
+  induction l as [|x l IH]; intros H; cbn [traverse]; [left; eauto|].
+  destruct (H x (or_introl eq_refl)) as [[y ->]| ->]; cbn [bind]; [|right; reflexivity].
+  destruct IH as [[r ->]| ->]; [intros z Hz; apply H; right; exact Hz| |]; cbn [bind]; [left; eauto|right; reflexivity].
+Qed.
+
+Lemma map_modules_ok_or f e0 d : (forall k m, nth_error (d_mods d) k = Some m -> (exists m', f m = Ok m') \/ f m = Error e0) ->
+  (exists d', map_modules f d = Ok d') \/ map_modules f d = Error e0.
+Proof.
+  intros H. unfold map_modules. destruct (traverse_ok_or f e0 (d_mods d)) as [[ms ->]| ->]; cbn [bind]; [|left; eauto|right; reflexivity].
+  intros m Hin. apply In_nth_error in Hin. destruct Hin as [k Hk]. eapply H. exact Hk.
+Qed.
+
+Theorem arrays_total d : wfs d -> (exists d', arrays_design d = Ok d') \/ arrays_design d = Error EName.
+Proof.
+  intros [_ [_ Hmods]]. apply map_modules_ok_or. intros k m Hk. destruct (Hmods k m Hk) as [_ [_ [_ Hi]]]. unfold arrays_module.
+  destruct (array_names (dissolved m) (namespace m)) as [tbl|e] eqn:Et; cbn [bind].
+  2:{ right. rewrite (array_names_err _ _ _ Et). reflexivity. }
+  left. destruct (traverse_total (expand_array d) (combine (dissolved m) tbl)) as [new ->]; [|cbn [bind]; eauto].
+  intros [x nms] Hpair. apply in_combine_l in Hpair. apply dissolved_In in Hpair. destruct Hpair as [Hx Hsx].
+  rewrite Forall_forall in Hi. destruct (Hi x Hx) as [_ [ports [Hpt [_ [Hc _]]]]].
+  unfold expand_array. cbn [fst snd]. rewrite Hpt. cbn [bind]. apply traverse_total. intros [e nm] _.
+  unfold elem_inst. cbn [fst snd].
+  destruct (traverse_total (fun c : name * sx => w <- ofopt EExtra (assoc (fst c) ports) ;;
+             c' <- array_elem_conn (i_n x) w (snd c) e ;; Ok (fst c, c')) (i_conns x)) as [cs ->]; [|cbn [bind]; eauto].
+  intros c Hcin. rewrite Forall_forall in Hc. destruct (Hc c Hcin) as [w [cw [Hpw [_ [_ [Hcw Hcase]]]]]].
+  rewrite Hpw. cbn [ofopt bind]. unfold array_elem_conn. rewrite Hcw. cbn [bind].
+  destruct (cw =? w) eqn:E1; [cbn [bind]; eauto|]. destruct Hcase as [Hcase|[_ Hcase]]; [lia|].
+  assert (cw =? i_n x * w = true) as -> by lia. cbn [bind]. eauto.
+Qed.
